@@ -10,7 +10,7 @@
 From Coq Require Import Reals List ZArith.
 From Sdfx Require Import Num.Ops Num.RInst Geo.Vec Geo.Box Geo.BoxR Geo.Mat Sdf.Shape Sdf.ShapeR
   Sdf.EncloseR Sdf.EncloseComb Sdf.EncloseXform Sdf.EncloseExtr Sdf.EncloseRev Sdf.EncloseRot
-  Sdf.EncloseSlice Sdf.EncloseCone Sdf.EncloseRigid Sdf.EncloseAll Sdf.EncloseEx.
+  Sdf.EncloseSlice Sdf.EncloseCone Sdf.EncloseRigid Sdf.EncloseBox Sdf.EncloseAll Sdf.EncloseEx.
 Import ListNotations.
 Open Scope R_scope.
 
@@ -31,6 +31,12 @@ Theorem C01_box2_encloses : forall size round o, 0 <= vx size -> 0 <= vy size ->
   @k_box2 ROps size round = Some o -> enc2 o.
 Proof. exact box2_enc. Qed.
 Print Assumptions C01_box2_encloses.
+
+(* with round >= 0 the (rounded) box is even in the Euclidean class *)
+Theorem C01_box2_lb2 : forall size round o, 0 <= vx size -> 0 <= vy size -> 0 <= round ->
+  @k_box2 ROps size round = Some o -> lb2_2 o.
+Proof. exact box2_lb2. Qed.
+Print Assumptions C01_box2_lb2.
 
 Theorem C01_line2 : forall l round o, 0 <= l -> 0 <= round -> @k_line2 ROps l round = Some o -> lbinf_2 o.
 Proof. exact line2_lbinf. Qed.
@@ -53,7 +59,14 @@ Theorem C01_box3_encloses : forall size round o, @k_box3 ROps size round = Some 
 Proof. exact box3_enc. Qed.
 Print Assumptions C01_box3_encloses.
 
+Theorem C01_box3_lb2 : forall size round o, @k_box3 ROps size round = Some o -> lb2_3 o.
+Proof. exact box3_lb2. Qed.
+Print Assumptions C01_box3_lb2.
+
 (* cylinder and capsule (round = radius) *)
+Theorem C01_cylinder_lb2 : forall h r round o, @k_cylinder ROps h r round = Some o -> lb2_3 o.
+Proof. exact cylinder_lb2. Qed.
+Print Assumptions C01_cylinder_lb2.
 Theorem C01_cylinder : forall h r round o, @k_cylinder ROps h r round = Some o -> lbinf_3 o.
 Proof. exact cylinder_lbinf. Qed.
 Print Assumptions C01_cylinder.
@@ -269,6 +282,9 @@ Print Assumptions C01_offset_negative_refuted.
 Example C01_ex_plate : wf3 ex_plate /\ (exists o, @build3 ROps ex_plate = Some o) /\
   forall o, @build3 ROps ex_plate = Some o -> enc3 o.
 Proof. exact (conj ex_plate_wf (conj ex_plate_builds ex_plate_enclosed)). Qed.
+(* a rotated rounded box and a rotated cylinder are in Lb2: their union may be offset and shelled *)
+Example C01_ex_rotated_box : wf3 ex_rotated_box /\ forall o, @build3 ROps ex_rotated_box = Some o -> enc3 o.
+Proof. exact (conj ex_rotated_box_wf ex_rotated_box_enclosed). Qed.
 Example C01_ex_ring : wf3 ex_ring /\ forall o, @build3 ROps ex_ring = Some o -> enc3 o.
 Proof. exact (conj ex_ring_wf ex_ring_enclosed). Qed.
 Example C01_ex_twisted_slice : wf3 ex_twisted_slice /\ forall o, @build3 ROps ex_twisted_slice = Some o -> enc3 o.
